@@ -175,6 +175,16 @@ def setup(ctx):
     from smartquery import SqParser
     ctx.SqParser = SqParser
     ctx.plain = SqParser()
+    # entries of the function table that the pinned table does not have are called by corpus texts too (several argument shapes, repeated on cached trees)
+    from smartquery import functions as _functions
+    from lib import gram
+    new = sorted(n for n in _functions.FUNCTIONS if n not in gram.PINNED_TABLE)
+    for name in new:
+        for args in ('1, 2, 3', '[1, 2], 1', '"a", "b", "c", "d"', 'x, "AbC", 1, "dflt"', 'd, "k"', '[3, 1, 2], v => v', 'i0, i0, "same", 0'):
+            t = '%s(%s)' % (name, args)
+            if t not in CORPUS:
+                CORPUS.extend([t, t])
+    ctx.count('corpus_texts_calling_table_entries_unknown_to_the_pinned_tree', len(new) * 7)
     ctx.warm = {}
     for s in CORPUS:
         try:
